@@ -329,6 +329,29 @@ func c15(tier string) int {
 			}
 		}
 	}
+	// truncations of one-entry maps whose location length is at the top of the uint16 range (length arithmetic
+	// that wraps would let a cut input through): every cut in the first and last 64 bytes, strided in between
+	for _, ll := range []int{65529, 65530, 65531, 65534, 65535} {
+		m := map[glow.PublicKey]client.GCAServer{pk(9): {Banned: true, Location: strings.Repeat("q", ll), HttpPort: 1, TcpPort: 2, UdpPort: 3}}
+		raw, err := client.SerializeGCAServerMap(m)
+		if err != nil {
+			bad("server-map/serialize-error", fmt.Sprint(ll, err))
+			continue
+		}
+		if back, err := client.UntrustedDeserializeGCAServerMap(raw); err != nil || !reflect.DeepEqual(back, m) {
+			bad("server-map/round-trip", fmt.Sprint("location length ", ll, err))
+		}
+		for l := 1; l < len(raw); l++ {
+			if l > 64 && l < len(raw)-64 && l%251 != 0 {
+				continue
+			}
+			run.Count("evaluations", 1)
+			if got, err := client.UntrustedDeserializeGCAServerMap(raw[:l]); err == nil {
+				bad("server-map/truncation-accepted", fmt.Sprintf("location length %d: input cut to %d of %d bytes decoded to %d entries", ll, l, len(raw), len(got)))
+				break
+			}
+		}
+	}
 	if _, err := client.SerializeGCAServerMap(map[glow.PublicKey]client.GCAServer{pk(1): {Location: strings.Repeat("z", 65536)}}); err == nil {
 		bad("server-map/oversized-location-accepted", "location of 65536 bytes serialised")
 	}
